@@ -1,7 +1,7 @@
 #!/bin/bash
 # refcheck.sh <Cxx> <K> — apply a behaviour-preserving refactoring (from /tmp/refac/<Cxx>.out/<K>/patch.diff) to a scratch copy of /repo
 # and run all checks on it: any violation is a false alarm to be analysed. The scratch copy is removed afterwards.
-P=$1; K=$2; D=/tmp/refac/$P.out/$K; W=/tmp/vw/refac_$P$K
+P=$1; K=$2; D=${REFDIR:-/tmp/refac}/$P.out/$K; W=/tmp/vw/refac_$P$K
 rm -rf $W; mkdir -p $W; rsync -a --exclude .git /repo/ $W/
 (cd $W && patch -p1 -s --no-backup-if-mismatch < $D/patch.diff) || { echo "PATCH FAILED"; rm -rf $W; exit 1; }
 (cd $W && GOFLAGS=-mod=mod GOPROXY=off go build ./... 2>&1 | head -3)
